@@ -188,6 +188,11 @@ def gen_plan(rng, tier, i, seed):
                 fault = "none"
                 genes = list(names)
     rebuild = (fault == "none" and profile_name is None and rng.random() < 0.2)
+    # one process: the run with --debug, then the same gene under a technology profile given by name (copy-number
+    # calling switched off for that call), then the replay of the archive
+    exome_between = bool(w.get("exome") and rng.random() < 0.4)
+    if exome_between:
+        profile_name, rebuild, fault, cn, genes = None, False, "none", None, list(names)
     profile_opts = None
     special = w.get("novel") or w["samples"]["s0"].get("no_neutral_reads")
     if w["samples"]["s0"].get("no_neutral_reads"):
@@ -212,6 +217,7 @@ def gen_plan(rng, tier, i, seed):
     if w["samples"]["s0"].get("no_neutral_reads") and rng.random() < 0.6:
         out_kind = "simple"
     return {
+        "exome_between": exome_between,
         "rebuild": rebuild,
         "profile_opts": profile_opts,
         "w": w,
@@ -283,12 +289,20 @@ def execute(plan, runner, rundir):
     sim = {}
     if plan["fault"] == "solver":
         sim = {"faults": [{"at": plan["fault_at"], "kind": plan["fault_kind"], "seed": 1}]}
+    if plan.get("exome_between"):
+        both = runner.segment(dict(common, kind="history3", tag="h", sim=sim, write=plan["write"], replay=plan["replay"],
+                                   hashseed=plan["write"]["hashseed"], between=rng_name(plan)))
+        return {"direct": ref, "write": both["write"], "replay": both["replay"]}
     wr = runner.segment(dict(common, kind="write", tag="w", sim=sim, enospc=plan["fault"] == "out_enospc",
                              **plan["write"]))
     rp = None
     if wr["archive"]:
         rp = runner.segment(dict(common, kind="replay", tag="r", **plan["replay"]))
     return {"direct": ref, "write": wr, "replay": rp}
+
+
+def rng_name(plan):
+    return ["exome", "wxs", "wes"][plan["write"]["hashseed"] % 3]
 
 
 def _execute_rebuild(plan, runner, rundir):
@@ -445,6 +459,8 @@ def update_stats(acc, plan, out):
         acc["rebuild"] = acc.get("rebuild", 0) + 1
         acc["genes_compared"] += 2 * len(plan["genes"])
         return
+    if plan.get("exome_between"):
+        acc["same_process_technology_profile_histories"] = acc.get("same_process_technology_profile_histories", 0) + 1
     acc["faults"][plan["fault"]] = acc["faults"].get(plan["fault"], 0) + 1
     for k, v in out["write"]["fired"].items():
         acc["fired"][k] = acc["fired"].get(k, 0) + v
@@ -502,6 +518,7 @@ def evidence(acc):
                 "genes_compared": acc["genes_compared"],
                 "replay_clock_backward_jumps": acc["clock_backward"],
                 "shipped_NA10860_sessions": acc.get("shipped", 0),
+                "same_process_run_technology_profile_replay_sessions": acc.get("same_process_technology_profile_histories", 0),
                 "same_process_two_build_sessions": acc.get("rebuild", 0),
             },
             "components": {
@@ -644,6 +661,17 @@ def run_segment(seg):
 
     if seg["kind"] == "materialise":
         return O.materialise(seg["world"], seg["dir"], seg["samples"], build=seg["build"], profile_yaml=False)
+    if seg["kind"] == "history3":
+        base = {k: v for k, v in seg.items() if k not in ("write", "replay", "between", "kind")}
+        wr = run_segment(dict(base, kind="write", tag="w", **{k: v for k, v in seg["write"].items() if k != "hashseed"}))
+        mid = dict(base, profile_name=seg["between"], profile_opts=None, cn=None)
+        O.run_main(_argv(mid, os.path.join(seg["worlddir"], seg["man"]["samples"]["s0"]),
+                         outp=os.path.join(seg["rundir"], "between.aldy")))
+        SIM.fire("same_process_technology_profile_run")
+        rp = None
+        if wr["archive"]:
+            rp = run_segment(dict(base, kind="replay", tag="r", **{k: v for k, v in seg["replay"].items() if k != "hashseed"}))
+        return {"write": wr, "replay": rp}
     ft = seams.install_clock(seg.get("clock") or {})
     rd = seg["rundir"]
     if seg.get("shipped"):
